@@ -18,6 +18,7 @@ import operator
 import os
 import random
 import re
+import sys
 import warnings
 from typing import Any
 
@@ -25,6 +26,11 @@ from harness import common
 from harness.common import Ctx, Finding, SearchResult, Stream, exc_enum, hx
 
 PROP = 'C17'
+
+# CPython refuses int <-> str conversions beyond 4300 digits by default; the model has no such limit and the harness itself prints
+# big ints, so the limit is lifted for the whole process (it applies to the evaluator under test and to the eval() oracle alike).
+if hasattr(sys, 'set_int_max_str_digits'):
+	sys.set_int_max_str_digits(0)
 
 KNOWN_FUNCS = ['int', 'float', 'str', 'abs', 'len', 'bool']
 CHAIN_CLASSES = {'Sum', 'Term', 'ShiftBitwise', 'AndBitwise', 'XorBitwise', 'OrBitwise'}
@@ -1087,6 +1093,7 @@ def run(ctx: Ctx) -> int:
 			'names of enum members do not shadow the called builtins; own-enum members are referenced by bare name, other enums as Enum.Member.value',
 			'recursion depth of the generated cases stays below both Python\'s recursion limit and the model\'s fuel',
 			'int()/float() spellings are ASCII (no non-ASCII digits or blanks)',
+			"CPython's 4300-digit limit of int/str conversion is lifted in the harness process (the model has none)",
 		],
 		trusted=['the harness interpreter of float terms (harness/c17.py eval_term/answer) uses CPython float operations'])
 
